@@ -42,15 +42,15 @@ type Model struct {
 	A Anchors
 
 	// caches
-	rd      map[*ssa.Function]*reachDefs
-	strMemo map[strKey][]string
-	Stats   map[string]int
-	LoadSeconds float64
-	calleeCache map[*ssa.Function][]callEdge
-	lm          *lockModel
-	hoCache      map[*ssa.Function]map[int]bool
-	helperHeld   map[*ssa.Function]lockset
-	wrapperCache map[*ssa.Function]wrapperInfo
+	rd            map[*ssa.Function]*reachDefs
+	strMemo       map[strKey][]string
+	Stats         map[string]int
+	LoadSeconds   float64
+	calleeCache   map[*ssa.Function][]callEdge
+	lm            *lockModel
+	hoCache       map[*ssa.Function]map[int]bool
+	helperHeld    map[*ssa.Function]lockset
+	wrapperCache  map[*ssa.Function]wrapperInfo
 	docWriteCache []*docWrite
 }
 
@@ -91,15 +91,15 @@ func Load(repoDir string, useCHA bool) (*Model, error) {
 	prog, ssaPkgs := ssautil.AllPackages(pkgs, ssa.InstantiateGenerics)
 	prog.Build()
 	m := &Model{
-		RepoDir: abs,
-		Fset:    root.Fset,
-		Pkg:     root,
-		Prog:    prog,
-		SSA:     ssaPkgs[0],
-		rd:      map[*ssa.Function]*reachDefs{},
-		strMemo: map[strKey][]string{},
-		Stats:   map[string]int{},
-		calleeCache: map[*ssa.Function][]callEdge{},
+		RepoDir:      abs,
+		Fset:         root.Fset,
+		Pkg:          root,
+		Prog:         prog,
+		SSA:          ssaPkgs[0],
+		rd:           map[*ssa.Function]*reachDefs{},
+		strMemo:      map[strKey][]string{},
+		Stats:        map[string]int{},
+		calleeCache:  map[*ssa.Function][]callEdge{},
 		hoCache:      map[*ssa.Function]map[int]bool{},
 		helperHeld:   map[*ssa.Function]lockset{},
 		wrapperCache: map[*ssa.Function]wrapperInfo{},
@@ -166,6 +166,9 @@ func (m *Model) inPkg(fn *ssa.Function) bool {
 // declName names a function by its enclosing declared function (closures are not
 // numbered, so that keys survive the insertion of another closure).
 func (m *Model) declName(fn *ssa.Function) string {
+	if fn == nil {
+		return "<package>"
+	}
 	root := fn
 	depth := 0
 	for root.Parent() != nil {
